@@ -70,7 +70,7 @@ def rule_nl(ctx, prop):
                     rep.violation(f"{f.key} dynamic-spaces-outside-indent-source",
                                   f"{f.path} creates a computed run of spaces outside create_plain_indent_trivia",
                                   f.loc(t["sp"]), cfg)
-        rep.floor("TokenType::spaces/tabs call sites", m, 25, cfg)
+        rep.floor("TokenType::spaces/tabs call sites", m, 15, cfg)
         # (3) newline literals: every occurrence is a pattern, or the source in line_ending_character
         k = 0
         for f in prog.fns("stylua_lib"):
